@@ -418,8 +418,9 @@ def _ph_probe(setup, ops, ctx, case):
         fresh = getattr(omkm_phase, PH_CLS[cls])(**_phase_kwargs(cls, 'probe'))
         sig = {'part': 'phases', 'cls': PH_CLS[cls], 'init': 'no-species-arg', 'via': 'direct',
                'op': 'construct-after-history'}
-        ok &= ctx.equal('a phase constructed without species lists none (after any history on other phases)',
-                        [s.name for s in fresh.species], [], sig, case)
+        names = [s.name for s in fresh.species]
+        ok &= ctx.true('a phase constructed without species lists none (after any history on other phases)',
+                       names == [], sig, case, names, [])
     return bool(ok)
 
 
@@ -561,7 +562,7 @@ def reaction_table(cfg):
         t.append(('stick', 'H2 + 2RU(S) = 2H(S) + 2RU(B)' if not sf else '2RU(S) + H2 = 2H(S) + 2RU(B)',
                   dict(is_adsorption=True, beta=0, sticking_coeff=0.35)))
         t.append(('plain', 'NH(S) + RU(S) = N(S) + H(S) + RU(B)', {}))
-        t.append(('plain', 'H(T) + RU(S) = H(S) + RU(T)', {}))
+        t.append(('plain', 'N(S) + H(S) + RU(B) = NH(S) + RU(S)', {}))
     return t
 
 
@@ -674,9 +675,11 @@ def rxn_phase_names(r):
 # =============================================================================================
 # what the (fresh, untouched) model says - the expectation
 # =============================================================================================
-def _is_refusal(e):
+def _is_refusal(e, cfg):
+    """pmutt.constants has no kilomole: a request in kmol is legitimately refused."""
     msg = str(e)
-    return isinstance(e, (ValueError, KeyError)) and ('not a supported unit' in msg or 'Invalid unit' in msg)
+    return (cfg['units'] == 'kmol' and isinstance(e, (ValueError, KeyError)) and 'kmol' in msg
+            and ('not a supported unit' in msg or 'Invalid unit' in msg))
 
 
 def expected_model(m, req):
@@ -685,6 +688,7 @@ def expected_model(m, req):
     from pmutt import constants as c
     U = UNIT_SYSTEMS[req['units']]
     Q = {'mol': 1.0, 'molec': c.Na, 'kmol': 1.0e-3}[U['quantity']]
+    c.convert_unit(initial='mol', final=U['quantity'])       # raises for a unit pMuTT does not know
     L = ref.LENGTH_PER_CM[U['length']]
     M = ref.MASS_PER_G[U['mass']]
     act = U['act_energy']
@@ -731,7 +735,7 @@ def expected_model(m, req):
     # interactions
     fin = '%s/%s' % (U['energy'], U['quantity'])
     ex['interactions'] = [dict(pair=[i.name_i, i.name_j], thresholds=[float(v) for v in i.intervals],
-                               strengths=[c.convert_unit(float(v), initial='kcal/mol', final=fin) for v in i.slopes],
+                               strengths=[float(v) * c.convert_unit(initial='kcal', final=U['energy']) / Q for v in i.slopes],
                                unit=fin, user_id=i.name, phase=phase_name_of(i.name_i)) for i in m.interactions]
     # beps (those some reaction uses, in order of first use)
     used = []
@@ -1028,7 +1032,7 @@ def compare(ex, got, req, ctx, case, part, supplied):
             ok &= ctx.close(C_RX_NUM, g['A'], e['A'], dict(sg, field='A'), case, rtol=tol_rate)
             ok &= ctx.close(C_RX_NUM, g['b'], e['b'], dict(sg, field='b'), case, rtol=tol_repr)
             ok &= ctx.close(C_RX_NUM, g['Ea'], e['Ea'], dict(sg, field='Ea'), case, rtol=tol_rate,
-                            atol=1e-9 if yamlf else 5.1e-6 * 1e-0 * 0 + 1e-9)
+                            atol=1e-9)
             ctx.evals(3)
             if yamlf:
                 ok &= ctx.equal(C_RX_NUM, [g['Ea_unit'], g['extra_rate_keys']], [U['act_energy'], []],
@@ -1195,7 +1199,7 @@ def _thermo_eval(case, ctx):
             m = build_model(cfg)
             text = write_model(m, writer, req, cfg['out'], ctx, case, part)
         except (ValueError, KeyError) as e:
-            if _is_refusal(e):
+            if _is_refusal(e, cfg):
                 ctx.refuse('unit not in pmutt.constants tables (%s)' % cfg['units'])
                 if cfg['units'] == 'kmol':
                     ctx.tag('units:kmol-refused')
@@ -1649,9 +1653,24 @@ def _r_match(spec, v):
     raise ValueError(kind)
 
 
+def _r_sig(origin, sel, case):
+    p, kind = origin
+    if p in R_PARAMS:
+        fam = 'with-unit' if R_PARAMS[p][1] else 'unitless'
+    elif p in R_DICTS:
+        fam = 'generic-dict'
+    else:
+        fam = p
+    sig = dict(part='reactor', family=fam, kind=kind,
+               units='none' if sel.get('units', 'omitted') in ('none', 'omitted') else 'given')
+    if any(k == 'dict-reused' for k in sel.values()):
+        sig['history'] = 'second write with the same generic dictionaries'
+    return sig
+
+
 def _r_walk(tree, doc, sel, ctx, case, path=()):
     ok = True
-    ukind = sel.get('units', 'omitted')
+    ukind = 'none' if sel.get('units', 'omitted') in ('none', 'omitted') else 'given'
     for k, spec in tree.items():
         if isinstance(spec, dict):                         # interior node
             sub = doc.get(k) if isinstance(doc, dict) else None
@@ -1660,12 +1679,12 @@ def _r_walk(tree, doc, sel, ctx, case, path=()):
                 for leaf in _r_leaves(spec):
                     if leaf[0] == 'optional':
                         continue
-                    sig = dict(part='reactor', param=leaf[-1][0], kind=leaf[-1][1], units=ukind)
+                    sig = _r_sig(leaf[-1], sel, case)
                     ok &= ctx.fail(C_R_PRESENT, sig, case, 'section %s missing' % '.'.join(path + (k,)), 'present')
                 continue
             ok &= _r_walk(spec, sub, sel, ctx, case, path + (k,))
             continue
-        sig = dict(part='reactor', param=spec[-1][0], kind=spec[-1][1], units=ukind)
+        sig = _r_sig(spec[-1], sel, case)
         if not isinstance(doc, dict) or k not in doc:
             if spec[0] != 'optional':
                 ok &= ctx.fail(C_R_PRESENT, sig, case, '%s missing' % '.'.join(path + (k,)), 'present')
@@ -1677,7 +1696,10 @@ def _r_walk(tree, doc, sel, ctx, case, path=()):
         ctx.evals()
     if isinstance(doc, dict):
         extra = [k for k in doc if k not in tree]
-        ok &= ctx.true(C_R_EXTRA, not extra, dict(part='reactor', where='.'.join(path) or 'top', units=ukind), case,
+        sge = dict(part='reactor', where=(path[0] if path else 'top'), units=ukind)
+        if any(k == 'dict-reused' for k in sel.values()):
+            sge['history'] = 'second write with the same generic dictionaries'
+        ok &= ctx.true(C_R_EXTRA, not extra, sge, case,
                        ['.'.join(path + (e,)) for e in extra], [])
     return bool(ok)
 
@@ -1740,7 +1762,8 @@ def _reactor_eval(case, ctx):
             doc = None
         if doc is None and not probs and not tree:
             doc = {}
-        sigf = dict(part='reactor', item='file', units=sel.get('units', 'omitted'))
+        sigf = dict(part='reactor', item='file',
+                    units='none' if sel.get('units', 'omitted') in ('none', 'omitted') else 'given')
         if not ctx.true(C_R_WF, not probs and isinstance(doc, dict), sigf, case, probs, []):
             if not isinstance(doc, dict):
                 return
